@@ -15,6 +15,10 @@ pub struct State {
     pub window_waits_for: usize, // the caller waits in the owned-query window until that many commands executed
     pub trace: Vec<u64>,
     pub timeouts: usize,
+    pub jitter: Option<u64>,     // seeded random delays at every command begin (no gating)
+    pub jitter_count: u64,
+    pub interleaved: u64,        // how many times a command began on another shard than the previous one
+    pub last_shard: Option<u64>,
 }
 
 pub static SCHED: Lazy<(Mutex<State>, Condvar)> = Lazy::new(|| (Mutex::new(State::default()), Condvar::new()));
@@ -26,6 +30,25 @@ pub fn install() {
         let (m, cv) = &*SCHED;
         let mut st = m.lock().unwrap();
         if !st.active {
+            return;
+        }
+        if let Some(seed) = st.jitter {
+            if site == "store.cmd.begin" {
+                st.jitter_count += 1;
+                if st.last_shard.is_some() && st.last_shard != Some(arg) {
+                    st.interleaved += 1;
+                }
+                st.last_shard = Some(arg);
+                // splitmix-style hash of (seed, shard, count)
+                let mut z = seed ^ (arg.wrapping_mul(0x9E3779B97F4A7C15)) ^ st.jitter_count.wrapping_mul(0xBF58476D1CE4E5B9);
+                z = (z ^ (z >> 30)).wrapping_mul(0xBF58476D1CE4E5B9);
+                z = (z ^ (z >> 27)).wrapping_mul(0x94D049BB133111EB);
+                let us = (z >> 40) % 400;
+                drop(st);
+                if us > 40 {
+                    std::thread::sleep(Duration::from_micros(us));
+                }
+            }
             return;
         }
         match site {
